@@ -201,6 +201,21 @@ type tstruct struct {
 	M map[string]string `json:"m,omitempty"`
 }
 
+// values with their own MarshalJSON: encoding/json compacts and validates what they return
+type badMarshaler struct{}
+
+func (badMarshaler) MarshalJSON() ([]byte, error) { return []byte("{bad json"), nil }
+
+type errMarshaler struct{}
+
+func (errMarshaler) MarshalJSON() ([]byte, error) {
+	return nil, errors.New("cannot marshal\nsecond line \"quoted\" back\\slash \x01 ctl")
+}
+
+type textErrMarshaler struct{}
+
+func (textErrMarshaler) MarshalText() ([]byte, error) { return nil, errors.New("text\tfailure\r\n") }
+
 type encGen struct {
 	rng *rand.Rand
 }
@@ -298,7 +313,13 @@ func (g *encGen) scalar(key, kind string) (log.Field, *xnode) {
 		}
 		return log.FloatPtr(key, &v), x
 	case "reflstr":
-		switch r.Intn(3) {
+		switch r.Intn(6) {
+		case 3:
+			return log.Reflect(key, badMarshaler{}), &xnode{kind: "anystr", quote: true}
+		case 4:
+			return log.Any(key, errMarshaler{}), &xnode{kind: "anystr", quote: true}
+		case 5:
+			return log.Reflect(key, textErrMarshaler{}), &xnode{kind: "anystr", quote: true}
 		case 0:
 			return log.Reflect(key, make(chan int)), &xnode{kind: "anystr", quote: true}
 		case 1:
@@ -307,7 +328,16 @@ func (g *encGen) scalar(key, kind string) (log.Field, *xnode) {
 		return log.Reflect(key, map[string]any{"x": math.NaN()}), &xnode{kind: "anystr", quote: true}
 	default: // "refl"
 		raw := func(v any) *xnode { b, _ := json.Marshal(v); return &xnode{kind: "raw", text: string(b)} }
-		switch r.Intn(9) {
+		switch r.Intn(11) {
+		case 9:
+			v := json.RawMessage("{\n  \"a\": [1,\n 2],\t\"b\" : \"x\"\n}")
+			return log.Reflect(key, v), raw(v)
+		case 10:
+			v := struct {
+				R json.RawMessage `json:"r"`
+				T time.Time       `json:"t"`
+			}{json.RawMessage(" [ 1 , 2 ] "), time.Unix(1e9, 0).UTC()}
+			return log.Any(key, v), raw(v)
 		case 0:
 			return log.Nil(key), &xnode{kind: "null"}
 		case 1:
@@ -726,15 +756,27 @@ func cmdEncoder(f hx.Flags, r *hx.Result) {
 			}
 			e.Line = rng.Intn(5000)
 			e.Tag = "_enc_tag"
+			// map-sourced fields that expand to nothing must leave no trace (no separator, no comma)
+			if rng.Intn(4) == 0 {
+				empty := log.FieldsFromMap(map[string]any{})
+				if rng.Intn(2) == 0 {
+					empty = log.FieldsFromMap(nil)
+				}
+				at := rng.Intn(len(fields) + 1)
+				fields = append(fields[:at:at], append([]log.Field{empty}, fields[at:]...)...)
+			}
 			e.Fields = fields
 			hasCtx := rng.Intn(3) == 0
 			if hasCtx {
 				e.CtxString = []string{"trace-abc", "a=b||c", "ctx string"}[rng.Intn(3)]
 			}
 			nctx := 0
-			if rng.Intn(3) == 0 {
+			switch rng.Intn(6) {
+			case 0, 1:
 				e.CtxFields = []log.Field{log.String("trace_id", "t1"), log.Int("span", 7)}
 				nctx = 2
+			case 2: // context fields that expand to nothing
+				e.CtxFields = []log.Field{log.FieldsFromMap(map[string]any{})}
 			}
 			width := rng.Intn(206) - 5
 			jl := &log.JSONLayout{BaseLayout: log.BaseLayout{FileLineLength: width}}
